@@ -245,6 +245,9 @@ def run(res: Results, idx: Index, tier: str) -> None:
             res.add("R-C06d", "OK" if ok else "VIOLATION", f"{LAX}fori_loop.py:{call.lineno}", key, "trip count derives from params['trip_count']" if ok else f"the Loop trip count `{src(elts[0])}` does not derive from the trip_count parameter", flow.qualname)
     rule_e(res, idx)
     rule_f(res, idx)
+    # R-C06g: results inside loop bodies keep the shape JAX computed (no loop-context axis-0 override)
+    from .c08 import rule_i as _aval_shape_rule
+    _aval_shape_rule(res, idx, "R-C06g")
     # scan
     for mname in ("_lower_without_scan_inputs", "_lower_with_scan_inputs"):
         f = sc.methods.get(mname)
